@@ -44,6 +44,10 @@ CHECKS = {
    technique="differential / metamorphic property-based testing (rapid): one long-lived pipeline versus fresh instances per record, with measured object reuse; concurrent variant under the race detector",
    text="Generated record streams are processed on one long-lived allocator, parser, extractions, transforms and serializers (the caller's line buffer is overwritten after every call, GC is disabled during a case so that sync.Pool reuse really happens) and, record by record, on fresh instances; the serialized output of every record on every output must be identical. Runs under the sample configuration (two outputs) and generated configurations; a sixth of the cases use 2-6 goroutines with private parsers sharing one allocator, and the thorough tier repeats them under -race.",
    note="sync.Pool reuse cannot be forced, only encouraged; the evidence reports the measured number of cases in which a LogRecord object was reused after a record with a different field pattern (pointer identity) and only those count as non-trivial. Sampled drops (documented stateful exception) are turned into 100% drops. Metric label attribution is C19's subject."),
+ "C07": dict(engine="c07robust", category="exploration", design="§3 C07",
+   technique="property-based testing (rapid) of hostile inputs through the synchronous pipeline with a sentinel-record metamorphic oracle; native coverage-guided fuzzing (go test -fuzz) in the thorough tier; real-listener scenarios in the end-to-end engine",
+   text="Layer A: hostile byte strings (structured header mutations, NIL/short timestamps, invalid UTF-8, tokens and records padded to every internal boundary up to 4x MaxRecordBytes) are presented as records to the real parse->extract->metric keys->transform->serialize->pack path under the sample and generated configurations, with panics and memory faults recovered; every input must be counted exactly once and two well-formed sentinel records processed right after it must give byte-identical output to a fresh pipeline. The thorough tier adds coverage-guided fuzzing seeded with the repository's test inputs and the hostile constants that crashed the pinned tree.",
+   note="Limits are defs variables scaled to 300/2000/70000 bytes with MaxRecord = MaxMessage+256 (about 1% of quick and 10% of thorough cases use the production 1 MiB). Inputs longer than the listener's line buffer (4x MaxRecordBytes) are cut as the listener would. Wedging (hangs) and the TCP path are covered by the listener scenarios of the end-to-end engine."),
 }
 
 NOT_YET = {}
